@@ -76,6 +76,11 @@ func (x *Exec) sliceVals(s SliceV) []Value {
 }
 
 func (x *Exec) native(name string, fn *ssa.Function, args []Value) (Value, bool) {
+	if strings.HasPrefix(name, "(*regexp.Regexp).") && len(args) > 0 {
+		if p, ok := args[0].(Ptr); ok && p.o == nil {
+			panic(panicPath{"runtime error: invalid memory address or nil pointer dereference (method " + name + " on a nil *regexp.Regexp)"})
+		}
+	}
 	switch name {
 	case "errors.Is":
 		err, _ := args[0].(Iface)
@@ -139,6 +144,15 @@ func (x *Exec) native(name string, fn *ssa.Function, args []Value) (Value, bool)
 		}
 		return strOf(strconv.FormatFloat(t.f(), byte(args[1].(*Term).c), int(sext(args[2].(*Term).c, 64)), int(args[3].(*Term).c))), true
 	case "fmt.Sprintf", "fmt.Errorf":
+		if fs, ok := args[0].(*Str); ok {
+			if _, conc := fs.concrete(); !conc {
+				// a symbolic format string: fmt never panics (it reports bad verbs in the text); the text is opaque
+				if name == "fmt.Errorf" {
+					return x.newError("fmt.Errorf with a symbolic format"), true
+				}
+				return &OpaqueStr{kind: "sprintf", fmt: "<symbolic format>", args: append([]Value{fs}, x.sliceVals(args[1].(SliceV))...)}, true
+			}
+		}
 		format := mustStr(args[0])
 		var as []interface{}
 		if vals := x.sliceVals(args[1].(SliceV)); name == "fmt.Sprintf" {
@@ -249,11 +263,25 @@ func (x *Exec) native(name string, fn *ssa.Function, args []Value) (Value, bool)
 		if pat, ok := args[0].(*Str); ok {
 			if _, conc := pat.concrete(); !conc {
 				// contract: error iff invalid UTF-8, or (free) syntax error unless pattern is QuoteMeta output
-				valid := x.call(x.prog.ImportedPackage("unicode/utf8").Func("ValidString"), []Value{pat}, nil).(*Term)
-				bad := !x.branch(valid)
-				if !bad && !x.quoted[pat] {
-					se := x.FreshBV("resyntax", 1)
-					bad = x.branch(bvcmp("=", se, BV(1, 1)))
+				// the verdict is a function of the pattern text: compiling the same text again on this path agrees
+				var kb strings.Builder
+				for _, b := range pat.b {
+					kb.WriteString(b.s)
+					kb.WriteByte(' ')
+				}
+				key := kb.String()
+				bad, seen := x.reBad[key]
+				if !seen {
+					valid := x.call(x.prog.ImportedPackage("unicode/utf8").Func("ValidString"), []Value{pat}, nil).(*Term)
+					bad = !x.branch(valid)
+					if !bad && !x.quoted[pat] {
+						se := x.FreshBV("resyntax", 1)
+						bad = x.branch(bvcmp("=", se, BV(1, 1)))
+					}
+					if x.reBad == nil {
+						x.reBad = map[string]bool{}
+					}
+					x.reBad[key] = bad
 				}
 				if name == "regexp.MustCompile" {
 					if bad {
@@ -422,7 +450,11 @@ func (x *Exec) native(name string, fn *ssa.Function, args []Value) (Value, bool)
 		}
 		return SliceV{a: a, len: len(m), cap: len(m)}, true
 	case "(*regexp.Regexp).MatchString":
-		re := args[0].(Ptr).o.(*Cell).v.(Native).v.(*regexp.Regexp)
+		re, isRe := args[0].(Ptr).o.(*Cell).v.(Native).v.(*regexp.Regexp)
+		if !isRe {
+			// a regexp compiled from a symbolic pattern: whether it matches is free
+			return bvcmp("=", x.FreshBV("rematch", 1), BV(1, 1)), true
+		}
 		if conc, ok := args[1].(*Str).concrete(); ok {
 			return Bool(re.MatchString(conc)), true
 		}
@@ -726,7 +758,6 @@ func (x *Exec) opaqueEq(a, b *OpaqueStr) *Term {
 }
 
 func boolTerm(v Value) *Term { return v.(*Term) }
-
 
 // strconv.ParseFloat on a symbolic string: real special()/readFloat() decide syntax,
 // digit->binary conversion is the uninterpreted function pf_val, range error a free boolean.
